@@ -9,7 +9,7 @@ Oracle: computed from the structured description (never from the bytes through a
 """
 from __future__ import annotations
 
-from harness.common import Failure, Spec, coq_bool, coq_bytes
+from harness.common import Failure, Spec, coq_bool, coq_bytes, coq_list
 
 H = bytes.fromhex
 TIMINGS = ["never", "at-response", "after", "after-lost"]
@@ -403,10 +403,10 @@ def corpus():
 
 def to_coq(case):
     segs = [H(s) for s in case["segs"]]
-    allb = b"".join(segs)
-    p1 = b"".join(segs[:case["k"]])
-    t = {"never": "DNever", "at-response": "DAtResponse", "after": "DAfter", "after-lost": "DAfterLost"}[case["timing"]]
-    return f"({coq_bytes(H(case['method']))}, {coq_bytes(p1)}, {coq_bytes(allb)}, {t}, {coq_bool(case['lose'])})"
+    k = case["k"] if case["timing"] == "after" else 0
+    t = {"never": "TNever", "at-response": "TBetween", "after": "TBetween", "after-lost": "TAfterLost"}[case["timing"]]
+    cl = lambda xs: coq_list((coq_bytes(x) for x in xs), "(list N)")
+    return f"({coq_bytes(H(case['method']))}, {cl(segs[:k])}, {cl(segs[k:])}, {t}, {coq_bool(case['lose'])})"
 
 
 def model_equal(case, impl_obs, model_obs):
@@ -444,10 +444,8 @@ SPEC = Spec(
          "malformed streams and 3 h11-serialised responses; EVERY truncation point of each (65% sampled in quick) x "
          "random segmentation x deliverBody never / in the callback / after a random number of segments / after the "
          "connection is lost x connection lost or left open x persistent or not; distinct by (case, observation)",
-    trusted=["hand-written model coq/C23/Model.v (scan = whole-prefix view of the parser; run = event machine), tied by "
-             "this correspondence run only",
-             "segmentation invariance of the real parser is established by this run (all cases are segmented at random), "
-             "not by proof",
+    trusted=["hand-written model coq/C23/Model.v (pstep/parse = the parser as a framed receiver fed delivery by delivery; "
+             "run = event machine), tied by this correspondence run only",
              "the oracle derives the expected events from the structured description of the response"],
     assumptions=["the request has been written completely before the response arrives (state WAITING)",
                  "lines shorter than LineReceiver.MAX_LENGTH (16384) and chunk-size lines shorter than 1024",
